@@ -445,7 +445,7 @@ def gen_mm_cases(rng, tier):
                 else:
                     fr = rng.choice([F(1, 4), F(1, 2), F(1), F(3)] if is_dyadic(g) else [F(1, 4), F(1, 2), F(3, 4), F(3)])
                     t = F(float(g * fr)) if fr < 3 else F(float(2 * g + 1))
-            comp = rng.choices([False, True, 3], [50, 30, 20])[0]
+            comp = rng.choices([False, True, 2, 3, 6], [45, 25, 8, 12, 10])[0]
             cases.append({"kind": "mm", "net": net, "t": str(t), "open": opn, "exports": rng.random() < 0.35,
                           "components": comp})
     return cases
